@@ -686,6 +686,35 @@ impl GmWorld {
                     }
                 }
             }
+            "g.ta" => {
+                // try_access with a scripted callback (every branch of the loop: Ok(0), short, too much, error)
+                let count = kv.us("count");
+                let mut script: std::collections::VecDeque<String> = kv.s("script").split(',').filter(|x| !x.is_empty()).map(|x| x.to_string()).collect();
+                let mut seen: Vec<String> = vec![];
+                let starts: Vec<u64> = lay.iter().map(|r| r.start).collect();
+                let res = with_mem!(&self.mems[&mi], M => M.try_access(count, ga, |total, len, start, region| {
+                    let idx = starts.iter().position(|s| *s == region.start_addr().raw_value()).unwrap_or(usize::MAX);
+                    seen.push(format!("{}:{}:{}:{}", total, len, start.raw_value(), idx));
+                    match script.pop_front().as_deref() {
+                        None | Some("f") => Ok(len),
+                        Some("e") => Err(GuestMemoryError::HostAddressNotAvailable),
+                        Some(x) => Ok(x[1..].parse().unwrap_or(0)),
+                    }
+                }));
+                // oracle: the callback is only ever offered bytes inside the region that owns the current address
+                for c in &seen {
+                    let f: Vec<u64> = c.split(':').map(|x| x.parse().unwrap_or(u64::MAX)).collect();
+                    if let Some(r) = lay.get(f[3] as usize) {
+                        if f[2] >= r.len as u64 || f[1] > r.len as u64 - f[2] || f[1] > (count as u64).saturating_sub(f[0]) {
+                            rec.fail("C03", "g.ta/callback-offered-range-outside-region", line);
+                        }
+                    }
+                }
+                match res {
+                    Ok(n) => format!("ok n={} calls={}", n, seen.join(",")),
+                    Err(e) => format!("{} calls={}", gerr(&e), seen.join(",")),
+                }
+            }
             "g.rvf" | "g.revf" => {
                 let id = kv.n("rd");
                 let count = kv.us("count");
@@ -1251,6 +1280,17 @@ pub fn run(rec: &mut Rec, rng: &mut Rng, n_ops: usize, mode: &str) {
                         l
                     }
                 }
+            } else if r < 96 {
+                let n = rng.below(5);
+                let script: Vec<String> = (0..n).map(|_| match rng.below(8) {
+                    0 | 1 | 2 => "f".to_string(),
+                    3 => "o0".to_string(),
+                    4 => format!("o{}", 1 + rng.below(4)),
+                    5 => format!("o{}", rng.boundary(&[len as u64, 4096, u64::MAX])),
+                    6 => "e".to_string(),
+                    _ => format!("o{}", len),
+                }).collect();
+                format!("g.ta m={} a={} count={} script={}", mi, a, if rng.chance(1, 6) { rng.boundary(&marks) } else { len as u64 }, script.join(","))
             } else {
                 format!("g.state m={}", mi)
             };
